@@ -34,6 +34,14 @@ ClassHist(t, n, fmt) ==
   <<"dc", "K", << <<"f", t, <<"req">>, <<>> >>, <<"g", <<"list", <<"int">> >>, <<"fac", L(<<I(1)>>)>>, <<>> >> >>,
     (IF n # {} THEN << <<"dialect", << <<"name", "NC">>, <<"no_copy", n>> >> >> >> ELSE <<>>)
     \o << <<"mixin", fmt>>, <<"flags", {"dialect_flag"}>> >> >>
+\* a holder compiled at its FIRST call (lazy) that opted in to dialects and nests a PLAIN dataclass: the first call passes a
+\* dialect listing no_copy_collections, the JUDGED call is the plain to_dict() afterwards -- with the default dialect nothing is shared,
+\* whatever dialect the nested class happened to be compiled under first
+NCD == << <<"name", "NCD">>, <<"no_copy", {"list", "dict"}>> >>
+PlainIn(t) == <<"dc", "PIn", << <<"f", t, <<"req">>, <<>> >>, <<"g", <<"list", <<"int">> >>, <<"fac", L(<<I(1)>>)>>, <<>> >> >>, << <<"mixin", "plain">> >> >>
+ClassNest(t, lazy) ==
+  <<"dc", "K", << <<"inner", PlainIn(t), <<"req">>, <<>> >>, <<"more", <<"list", PlainIn(t)>>, <<"fac", L(<<>>)>>, <<>> >> >>,
+    << <<"flags", {"dialect_flag"}>> >> \o (IF lazy THEN << <<"lazy", TRUE>> >> ELSE <<>>) >>
 HistShapes == { <<"list", e>> : e \in Leaf3 } \cup { <<"dict", <<"str">>, e>> : e \in Leaf3 } \cup { <<"list", <<"list", <<"int">> >> >>, <<"opt", <<"dict", <<"str">>, <<"str">> >> >> }
 
 \* Any positions hold scalars only (the statement excepts Any / pass_through positions)
@@ -42,9 +50,10 @@ ScalarAny(x) == TRUE
 Init == T = <<"start">> /\ v = <<"nov">> /\ kind = "start" /\ prior = "fresh"
 Next == \/ kind = "start" /\ \E t \in Shapes, n \in NSets, p \in BOOLEAN : T' = ClassFor(t, n, p) /\ v' = v /\ kind' = "type" /\ prior' = "fresh"
         \/ kind = "start" /\ \E t \in HistShapes, n \in {{}, {"list"}}, f \in Priors \ {"fresh"} : T' = ClassHist(t, n, f) /\ v' = v /\ kind' = "type" /\ prior' = f
+        \/ kind = "start" /\ \E t \in HistShapes, lz \in BOOLEAN : T' = ClassNest(t, lz) /\ v' = v /\ kind' = "type" /\ prior' = "nocopy"
         \/ kind = "type" /\ T' = T /\ v' \in Range(Smp(T)) /\ kind' = "value" /\ prior' = prior
 
-Cx == IF prior = "fresh" THEN DefaultCx ELSE [DefaultCx EXCEPT !.dlct = DD]
+Cx == IF prior \in {"fresh", "nocopy"} THEN DefaultCx ELSE [DefaultCx EXCEPT !.dlct = DD]
 Wire == Pack(T, Cx, v)
 Shared == SharedPaths(T, Cx, v, <<>>)
 
@@ -56,5 +65,5 @@ OnlyListed ==
   kind = "value" => \A p \in Shared : \E q \in Shared : /\ Len(q) <= Len(p) /\ SubSeq(p, 1, Len(q)) = q
                                                          /\ LET n == GetOpt(GetOpt(DcCfg(T), "dialect", <<>>), "no_copy", {}) IN n # {}
 
-EmitInv == kind = "value" => PrintT(ToJson(<<"share", T, v, Wire, Shared, AnyPaths(T, v, <<>>), prior, IF prior = "fresh" THEN <<>> ELSE DD>>))
+EmitInv == kind = "value" => PrintT(ToJson(<<"share", T, v, Wire, Shared, AnyPaths(T, v, <<>>), prior, IF prior = "fresh" THEN <<>> ELSE IF prior = "nocopy" THEN NCD ELSE DD>>))
 =============================================================================
